@@ -71,6 +71,24 @@ CHECKS = {
    design="5 (C03), 4.8",
    note="types in which gluon keeps quantifiers inside records / tuples are compared by structure only (the property allows a different placement of quantifiers); acceptance of untypable terms and crashes on untypable terms are recorded as divergences (they are C02's and C09's claims)",
    technique="algorithm W in TLA+ evaluated by TLC over an exhaustive term enumeration + replay into the real checker with metamorphic variants"),
+ "C15": dict(
+   level="model_checking",
+   text="Modules.tla models module sources, versions, the memo discipline of the incremental database and the reference `Answer` (what a fresh VM answers: value, cycle error, missing module, type error in the first ill-typed module); TLC checks NeverStale (memo answer = fresh answer) exhaustively for 2 modules and rejects a memo that skips one dependency. TLC-generated edit histories (edits incl. re-registration of identical text, evaluations; all 3-4 step histories over 2 modules, simulated 8-step histories over 3 modules) are replayed on one long-lived VM: after every import the value / error kind and the set of module bodies that ran (host.tick) are compared with the model, which also bounds what may run without a source change (EvalOnce).",
+   design="5 (C15), 4.5",
+   note="module bodies report their evaluation through a host function; edits go through add_module, evaluations through `import! m`; the VM reports all failing imports where the model names the first",
+   technique="TLC model checking of Modules.tla + replay of TLC-generated edit histories against the model's fresh-VM answer and evaluation bounds"),
+ "C08": dict(
+   level="model_checking",
+   text="Infix.tla transcribes the shift/reduce machine of parser/src/infix.rs and defines grouping declaratively (split at the lowest precedence; one associativity per level or conflict); TLC proves Machine = Group for every chain up to 4-6 operators over a table with two operators per (precedence, associativity) and over the built-in table. Every chain is replayed through the real parser (#[infix] declarations / primitive operators), grouping observed through evaluation. Round trip: Lang.tla programs printed in three concrete styles must parse to the same tree (AST dumps normalised: positions, symbol addresses, redundant parentheses) and literal / identifier spans must delimit their text.",
+   design="5 (C08), 4.9",
+   note="Layout.tla (a transcription of the layout algorithm) was not built: offside layout is exercised through the multi-line match alternatives of every style; grouping is observed by evaluation rather than by inspecting the tree",
+   technique="TLC equivalence check machine vs declarative grouping (Infix.tla) + exhaustive replay of chains + style round trips"),
+ "C18": dict(
+   level="model_checking",
+   text="TypeSyntax.tla enumerates type ASTs and contains a precedence-aware printer and a recursive-descent recogniser for the core grammar (atoms, application, arrows, forall): TLC checks Parse(Print(t)) = t for every core type up to 5-7 nodes. Every enumerated type (core + implicit arguments, tuples, closed / open records, variants, forall) is built as a real ArcType, rendered at widths 20, 40, 80, 120, 200, parsed back by the real parser and compared structurally.",
+   design="5 (C18), 4.9",
+   note="type fields, effect rows, GADT-style constructors and operator names are not generated; comparison is by an s-expression over Type<Id, T>",
+   technique="TLC check of printer/recogniser round trip (TypeSyntax.tla) + replay of every enumerated type through the real printer and parser at several widths"),
 }
 NOT_BUILT = "check not built yet (work in progress; see DESIGN.md section 5)"
 NA = {}
